@@ -53,6 +53,9 @@ type EntryCfg struct {
 	// labels that must be reached (vacuity guard) in addition to every verifAssert label seen
 	MustReach []string `json:"must_reach"`
 	NoReplay  bool     `json:"no_replay"` // counterexamples depend on engine-internal choices
+	// the native harness re-samples the engine-internal choice itself (e.g. map order by
+	// repetition), so counterexamples using internal choices are still replayed natively
+	ReplayInternal bool `json:"replay_internal"`
 }
 
 type CheckCfg struct {
@@ -410,7 +413,10 @@ func finish(id, tier string, seed int, t0 time.Time, c *CheckCfg, dir string, ld
 			if k < 4 {
 				samples = append(samples, map[string]interface{}{"entry": r.cfg.Func, "inputs": renderSample(s), "observes": s.Observes})
 			}
-			valCases = append(valCases, replayCase{Entry: r.cfg.Func, Vector: s.Vector, Params: r.params, Observes: s.Observes, expectPass: true})
+			if !r.cfg.ReplayInternal && !r.cfg.NoReplay {
+				// (entries whose native run re-samples an engine-internal choice are not comparable path by path)
+				valCases = append(valCases, replayCase{Entry: r.cfg.Func, Vector: s.Vector, Params: r.params, Observes: s.Observes, expectPass: true})
+			}
 		}
 		es := map[string]interface{}{"entry": r.cfg.Func, "about": r.cfg.About, "params": r.params, "paths": rep.Paths, "completed": rep.Completed,
 			"pruned_infeasible": rep.Pruned, "asserts_evaluated": rep.Asserted, "reached": rep.Reached, "violations": len(rep.Violations),
@@ -422,7 +428,7 @@ func finish(id, tier string, seed int, t0 time.Time, c *CheckCfg, dir string, ld
 		var batch []replayCase
 		var batchIdx []int
 		for vi, v := range rep.Violations {
-			if v.Internal || r.cfg.NoReplay {
+			if (v.Internal && !r.cfg.ReplayInternal) || r.cfg.NoReplay {
 				continue
 			}
 			batch = append(batch, replayCase{Entry: r.cfg.Func, Vector: v.Vector, Params: r.params})
@@ -447,7 +453,7 @@ func finish(id, tier string, seed int, t0 time.Time, c *CheckCfg, dir string, ld
 			b, _ := json.MarshalIndent(rc, "", " ")
 			os.WriteFile(path, b, 0644)
 			reproduced, detail := false, ""
-			if v.Internal || r.cfg.NoReplay {
+			if (v.Internal && !r.cfg.ReplayInternal) || r.cfg.NoReplay {
 				detail = "counterexample depends on engine-internal choices (map order / schedule); not natively replayable"
 			} else if nativeErr != nil {
 				detail = "native replay failed to run: " + nativeErr.Error()
